@@ -1,5 +1,6 @@
 import SemantivaModel.Driver.C01
 import SemantivaModel.Driver.C02
+import SemantivaModel.Driver.C03
 import SemantivaModel.Driver.C06
 import SemantivaModel.Driver.C08
 import SemantivaModel.Driver.C11
@@ -36,6 +37,8 @@ def dispatch (st : DState) (j : Json) : Except String (DState × Json) := do
   else if m.startsWith "c01." then
     let (s, r) ← C01.handle st.c01 m j
     pure ({ st with c01 := s }, r)
+  else if m.startsWith "c03." then
+    pure (st, ← C03.handle st.c01 m j)
   else if m.startsWith "c02." then
     pure (st, ← C02.handle m j)
   else if m.startsWith "c06." then
